@@ -25,6 +25,17 @@
     position; hence the entry a solved cell overwrites with `u[n,j] = 0` has modulus ≤ precision
     (`solved_cell_residue_le_precision`), each summand of the `err` term of `triangle_reconstruct_with_error`.
 
+  * the retry loop of `Circuit.decomposition` (`while count < max_try`, model `retry`: the attempts share one array,
+    what an attempt leaves in it is a parameter): the loop returns the result of its first successful attempt
+    (`retry_returns_first_success`); with every attempt on a private copy (repaired code) the result reconstructs the
+    requested `U` itself and is the result of one attempt run on `U` alone, whatever the abandoned attempts did
+    (`decomposition_retry_reconstruct`, `decomposition_retry_history_independent`); in general the result reconstructs
+    `U` up to negligible entries set to 0 as long as an attempt leaves nothing but such zeros behind
+    (`retry_reconstruct_with_error`), which holds for the in-place writes of the pinned code
+    (`decomposition_retry_inplace_reconstruct`) — whose defect was to modify its caller's matrix
+    (`pinned_code_modifies_callers_matrix`) — and cannot be dropped (`retry_needs_fresh_matrix`: a working copy that
+    an abandoned attempt has reduced and the next attempt starts from gives a well-formed circuit for the wrong matrix).
+
   NOT proved (named residue): that the numerical solver finds parameters (`decomposeTriangle … = some _`
   and "within the configured retries"), that the final `u` of a unitary input is diagonal up to the
   precision (`lower_triangular_unitary_is_diagonal` is the exact-arithmetic half of it; the floating-point
